@@ -3,5 +3,6 @@ SPECIFICATION Spec
 CONSTANTS
   SingleContexts = {}
   PairContexts = {"func", "generic"}
+  CheckObs = FALSE
 INVARIANTS WellFormed Emit
 CHECK_DEADLOCK FALSE
